@@ -3,9 +3,9 @@ package props
 import (
 	"os"
 
-	"github.com/form3tech-oss/f1/v2/pkg/f1"
 	"context"
 	"fmt"
+	"github.com/form3tech-oss/f1/v2/pkg/f1"
 
 	f1testing "github.com/form3tech-oss/f1/v2/pkg/f1/testing"
 	"github.com/form3tech-oss/f1/v2/verifharness/core"
